@@ -35,30 +35,30 @@ def scratch(prefix="verif-"):
 _built = {}
 
 
-def build_harness(race=False):
-    """Build vharness against the current working tree of /repo with hooks on."""
-    key = "race" if race else "plain"
+def build_harness(race=False, cmd="vharness"):
+    """Build harness/cmd/<cmd> against the current working tree of /repo with hooks on."""
+    key = cmd + ("-race" if race else "-plain")
     if key in _built:
         return _built[key]
     os.makedirs(BUILD, exist_ok=True)
-    out = os.path.join(BUILD, "vharness-" + key)
+    out = os.path.join(BUILD, key)
     env = dict(os.environ, **GOENV)
     hdir = os.path.join(VERIF, "harness")
     gosum = os.path.join(hdir, "go.sum")
     if not os.path.exists(gosum):
         shutil.copy(os.path.join(REPO, "go.sum"), gosum)
-    cmd = ["go", "build", "-tags", "verif"] + (["-race"] if race else []) + ["-o", out, "./cmd/vharness"]
+    cmd = ["go", "build", "-tags", "verif"] + (["-race"] if race else []) + ["-o", out, "./cmd/" + cmd]
     t0 = time.time()
     p = subprocess.run(cmd, cwd=hdir, env=env, stdout=subprocess.PIPE, stderr=subprocess.STDOUT, text=True)
     if p.returncode != 0:
         raise Infra("harness build failed:\n" + p.stdout[-4000:])
-    log("  [build] vharness(%s) %.1fs" % (key, time.time() - t0))
+    log("  [build] %s %.1fs" % (key, time.time() - t0))
     _built[key] = out
     return out
 
 
-def harness(args, race=False, timeout=1800, env=None, ok_codes=(0,)):
-    exe = build_harness(race)
+def harness(args, race=False, timeout=1800, env=None, ok_codes=(0,), cmd="vharness"):
+    exe = build_harness(race, cmd)
     e = dict(os.environ)
     if env:
         e.update(env)
